@@ -173,6 +173,26 @@ def identity_check(case, deck, t4, box):
     if r0 == 0 or np.max(np.abs(ratio - r0)) > 1e-7 * abs(r0):
         return {'problem': 'T4 surface function is not a constant multiple '
                 'of the MCNP function', 'ratios': [float(v) for v in ratio[:6]]}
+    if cone is not None and cone[3]:
+        # one-sheet cone: the auxiliary plane must be the plane through the
+        # apex orthogonal to the axis
+        apex, u = cone[0], cone[1]
+        aux = [ts for ts in t4.surfs.values()
+               if 'aux plane for cone' in ts.comment and ts.params is not None]
+        if len(aux) != 1:
+            return {'problem': 'expected exactly one auxiliary apex plane, '
+                    'found %d' % len(aux)}
+        ga, gas = t4eval.surf_value(aux[0], Q)
+        fa = (Q - apex) @ u
+        fas = np.abs(Q) @ np.abs(u) + abs(apex @ u) + 1e-300
+        good_a = (np.abs(fa) > 1e-3 * fas) & (np.abs(ga) > 1e-3 * gas)
+        if good_a.sum() >= 10:
+            ra = ga[good_a] / fa[good_a]
+            ra0 = np.median(ra)
+            if ra0 == 0 or np.max(np.abs(ra - ra0)) > 1e-7 * abs(ra0):
+                return {'problem': 'the auxiliary plane of the one-sheet cone '
+                        'is not the plane through the apex orthogonal to the '
+                        'axis', 'ratios': [float(v) for v in ra[:6]]}
     vol = t4.volus.get(1)
     if vol is not None:
         if sid in vol.minus and r0 < 0:
